@@ -48,7 +48,7 @@ type c07Cell struct {
 	transport  string // inmem, io, sse, stateful, stateless
 	jsonResp   bool
 	store      bool
-	advertised string // all, legacy, mixed, old (only for inmem/io)
+	advertised string // all, legacy, mixed, old, modern-only (only for inmem/io)
 	requested  string
 	// noSessionIDs: the server is configured with GetSessionID returning "" (a stateful endpoint that
 	// issues no Mcp-Session-Id); it is still a stateful endpoint and cannot serve 2026-07-28
@@ -112,6 +112,8 @@ func c07RunOn(s *Server, c c07Cell) (obs, sig, msg string) {
 		advertised = []string{"2026-07-28", "2025-06-18"}
 	case "old":
 		advertised = []string{"2025-06-18", "2025-03-26"}
+	case "modern-only":
+		advertised = []string{"2026-07-28"}
 	}
 	transportSet := sdk
 	if c.transport == "sse" || c.transport == "stateful" {
@@ -381,7 +383,7 @@ func TestVerifC07(t *testing.T) {
 	var cells []c07Cell
 	for _, r := range requested {
 		for _, tr := range []string{"inmem", "io"} {
-			for _, adv := range []string{"all", "legacy", "mixed", "old"} {
+			for _, adv := range []string{"all", "legacy", "mixed", "old", "modern-only"} {
 				cells = append(cells, c07Cell{transport: tr, advertised: adv, requested: r})
 				if tr == "inmem" {
 					cells = append(cells, c07Cell{transport: tr, advertised: adv, requested: r, logged: true})
